@@ -34,7 +34,7 @@ def partitions(tier):
             parts.append({"name": "step-%s-cmd%d%s" % (v, cmd, sub), "fn": "sym_step", "version": v, "cmd": cmd, "sub": sub, "sym_sleep": sub == "a",
                           "maxnodes": 1, "maxch": 1, "idlo": 10, "idhi": 99,
                           "tvhi": 9, "budget": 500 if q else 3000, "cost": 5 if cmd == 3 else 3})
-            if not q:
+            if not q and cmd != 3:
                 # thorough adds: A = all digit classes of the ids, B = larger shapes and type window
                 parts.append({"name": "stepA-%s-cmd%d%s" % (v, cmd, sub), "fn": "sym_step", "version": v, "cmd": cmd, "sub": sub,
                               "maxnodes": 1, "maxch": 1, "idlo": 0, "idhi": 255, "tvhi": 9, "budget": 3000, "cost": 9})
